@@ -153,6 +153,7 @@ type Frame struct {
 	depth        int
 	cur          *State
 	curBlock     *ssa.BasicBlock
+	curIdx       int
 	curReach     string
 	inLoops      []*loopInfo
 	params       map[string]TV
